@@ -23,23 +23,23 @@ from common import NCPU, MachineryFailure
 CHUNK = 4000
 
 
-def _cfg(ck, name, stride, phase, allcombos, withbase):
+def _cfg(ck, name, stride, phase, allcombos, withbase, cfgall):
     txt = (
         "CONSTANTS\n"
-        f"  Stride = {stride}\n  Phase = {phase}\n  AllCombos = {'TRUE' if allcombos else 'FALSE'}\n  WithBase = {'TRUE' if withbase else 'FALSE'}\n"
+        f"  Stride = {stride}\n  Phase = {phase}\n  AllCombos = {'TRUE' if allcombos else 'FALSE'}\n  WithBase = {'TRUE' if withbase else 'FALSE'}\n  CfgAll = {'TRUE' if cfgall else 'FALSE'}\n"
         "INIT Init\nNEXT Next\nINVARIANT ExportCase\nCHECK_DEADLOCK FALSE\n"
     )
     open(f"{ck.spec}/{name}.cfg", "w").write(txt)
 
 
 def _short(o):
-    return f"{o['kind']} A={o['names']['A']} B={o['names']['B']} C={o['names']['C']} sys={o['sys']} {o['dt']} {o['sh']}"
+    return f"{o['kind']} A={o['names']['A']} B={o['names']['B']} C={o['names']['C']} sys={o['sys']} cfg={o['cfg']} {o['dt']} {o['sh']}"
 
 
 def _validate(ck, obs, datapath, label):
     """TLC evaluates P and T on the observations; returns the verdict actions in a deterministic order (they are
     applied by the caller after all concurrent work has finished)."""
-    keep = ("kind", "a", "b", "c", "k", "dt", "sh", "xs", "exact", "sys", "sysi", "ustr")
+    keep = ("kind", "a", "b", "c", "k", "dt", "sh", "xs", "exact", "sys", "sysi", "cfgi", "ustr")
     chunks = [(off, obs[off : off + CHUNK]) for off in range(0, len(obs), CHUNK)]
 
     def one(arg):
@@ -60,10 +60,11 @@ def _validate(ck, obs, datapath, label):
         for r in sorted(res.by_tag("P-FAIL"), key=lambda r: (r["i"], r["j"], r["clause"])):
             o = part[r["i"] - 1]
             x = o["res"][r["j"] - 1]
-            key = {"clause": r["clause"], "fam": r["fam"], "rt": r["rt"], "dt": o["dt"], "sh": o["sh"], "cls": r["cls"], "exc": r["exc"], "registry": "user" if label.startswith("user") else "default"}
+            key = {"clause": r["clause"], "fam": r["fam"], "rt": r["rt"], "dt": o["dt"], "sh": o["sh"], "cls": r["cls"], "exc": r["exc"], "registry": "user" if label.startswith("user") else "default", "sys": o["sys"], "cfg": o["cfg"]}
             fam = [y for y in o["res"] if y["fam"] in (r["fam"], {"abc": "ac", "aba": "id", "bback": "id", "src": "id"}.get(r["fam"], r["fam"]))]
             detail = {"case": _short(o), "xs": o["xs"], "observed": {f"{y['fam']}.{y['rt']}": [y["k"], y["exc"], y["u"], y["show"]] for y in fam}, "failing": f"{x['fam']}.{x['rt']}"}
-            case = {k: o[k] for k in ("kind", "a", "b", "c", "k", "dt", "sh", "xs", "exact", "sys", "sysi")}
+            case = {k: o[k] for k in ("kind", "a", "b", "c", "k", "dt", "sh", "xs", "exact", "sys", "sysi", "cfg", "cfgi")}
+            case.update({k: o["_case"][k] for k in ("dfam", "dbfam", "dg")})
             case.update(mode=label.split("-")[0], A=o["_case"]["A"], B=o["_case"]["B"], C=o["_case"]["C"], gen=o["_case"]["gen"], cand=o["_case"]["cand"])
             acts.append(("violation", key, detail, case))
         return acts
@@ -86,7 +87,7 @@ def _apply(ck, acts):
 def _instance(ck, extract, mode, stride, phase, allcombos, withbase):
     data, info = c03_data.build(extract, mode)
     datapath = ck.write_json(f"c03_data_{mode}.json", data)
-    _cfg(ck, f"MC_C03_{mode}", stride, phase, allcombos, withbase)
+    _cfg(ck, f"MC_C03_{mode}", stride, phase, allcombos, withbase, ck.q(False, True))
     res = ck.tlc("MC_C03", f"MC_C03_{mode}", env={"C03_DATA": datapath}, workers=1, coverage=False, label=f"case table {mode} stride={stride} allcombos={allcombos}", timeout=3000)
     cases = res.by_tag("CASE")
     if len(cases) < 50:
